@@ -325,6 +325,69 @@ VP_BUILTIN(F03_pbf_blob_header_of_128_bytes_or_more) {
     }
 }
 
+VP_BUILTIN(pbf_blobs_just_below_the_size_limits) {
+    // The format allows blobs of less than 32 MiB (uncompressed size, and size of the Blob message) and BlobHeaders of less than 64 KiB.
+    // Blocks padded with unused string table entries so that the sizes are limit-1, limit-2 and limit-4096: raw, zlib and lz4.
+    using namespace enc::pb;
+    const size_t LIMIT = 32UL * 1024UL * 1024UL;
+    auto frame = [&](const std::string& type, const std::string& blob, size_t index_len) {
+        std::string h = f_bytes(1, type) + (index_len ? f_bytes(2, std::string(index_len, 'i')) : std::string{}) + f_int64(3, static_cast<int64_t>(blob.size()));
+        std::string o;
+        for (int sh : {24, 16, 8, 0}) o += static_cast<char>((h.size() >> sh) & 0xff);
+        return o + h + blob;
+    };
+    const std::string header = f_bytes(4, "OsmSchema-V0.6") + f_bytes(16, "gen");
+    const std::string node = f_sint64(1, 17) + f_sint64(8, 20) + f_sint64(9, 10);
+    auto block_of_size = [&](size_t want) {
+        // stringtable { "", unused entries of 1000 bytes each, one shorter one } + one group with one node + granularity; the amount of
+        // filler is adjusted until the block has `want` bytes (strings stay below the library's limit of 1024 bytes per string)
+        size_t filler = want - 64 - want / 1003 * 3;
+        for (int tries = 0; tries < 12; ++tries) {
+            std::string table = f_bytes(1, "");
+            table.reserve(want);
+            size_t left = filler;
+            const std::string full = f_bytes(1, std::string(1000, 'x'));
+            for (; left >= 1000; left -= 1000) table += full;
+            table += f_bytes(1, std::string(left, 'y'));
+            std::string block = f_bytes(1, table) + f_bytes(2, f_bytes(1, node)) + f_int64(17, 100);
+            if (block.size() == want) return block;
+            filler = filler + want - block.size();
+        }
+        std::abort();
+    };
+    for (size_t below : {1UL, 2UL, 4096UL}) {
+        for (int comp = 0; comp < 3; ++comp) {
+            std::string blob, what;
+            if (comp == 0) {
+                // raw: the Blob message itself (tag + length + data) is LIMIT - below bytes long
+                const size_t msg = LIMIT - below;
+                blob = f_bytes(1, block_of_size(msg - 5));
+                if (blob.size() != msg) std::abort();
+                what = "raw blob, Blob message of " + std::to_string(blob.size()) + " bytes";
+            } else {
+                const std::string raw = block_of_size(LIMIT - below);
+                if (comp == 1) {
+                    blob = f_int64(2, static_cast<int64_t>(raw.size())) + f_bytes(3, enc::zlib_compress(raw, 1));
+                    what = "zlib blob, raw_size " + std::to_string(raw.size());
+                } else {
+                    std::string out(static_cast<size_t>(LZ4_compressBound(static_cast<int>(raw.size()))), '\0');
+                    const int n = LZ4_compress_default(raw.data(), &out[0], static_cast<int>(raw.size()), static_cast<int>(out.size()));
+                    out.resize(static_cast<size_t>(n));
+                    blob = f_int64(2, static_cast<int64_t>(raw.size())) + f_bytes(6, out);
+                    what = "lz4 blob, raw_size " + std::to_string(raw.size());
+                }
+            }
+            // BlobHeader just below 64 KiB (indexdata) for the data blob in one of the variants
+            const size_t index_len = below == 2 ? 65535 - 9 - 4 - 5 : 0;
+            const std::string file = frame("OSMHeader", f_bytes(1, header), 0) + frame("OSMData", blob, index_len);
+            for (bool fd : {false, true}) {
+                ReadBack got = read_file(file, "pbf", fd, "pbf", what);
+                compare({tiny_node(17)}, got, "pbf", what);
+            }
+        }
+    }
+}
+
 VP_BUILTIN(F04_o5m_file_ending_within_ten_bytes_of_a_dataset) {
     // files in which fewer than ten bytes follow a dataset type byte (the parser then refills its window at the end of the input)
     static const int32_t mags[] = {5, 5000, 500000, 90000000, 900000000};  // zigzag varints of 1..5 bytes
